@@ -4,6 +4,8 @@ import (
 	"bytes"
 	"fmt"
 	"math"
+	"os"
+	"path/filepath"
 	"runtime/debug"
 	"sort"
 	"strconv"
@@ -118,7 +120,11 @@ func (c c16Cfg) String() string { return fmt.Sprintf("version=%s HumanReadable=%
 // value tables of the run, -1 = entry absent.
 type c16Attr struct {
 	media, crop, rot, res, aa int
-	extra, staleParent       bool
+	extra, staleParent        bool
+	// nulls: bit k set = an absent attribute k (0 media, 1 crop, 2 rot,
+	// 3 res, 4 aa) is given as an explicit null entry (dict pages only);
+	// in PDF a null entry is the same as no entry.
+	nulls int
 }
 
 type c16Page struct {
@@ -169,6 +175,7 @@ type c16Run struct {
 	c      *kit.Case
 	cfg    c16Cfg
 	label  string
+	prefix string // prepended to violation keys (workload class)
 	buf    *bytes.Buffer
 	out    *pdf.Writer
 	rm     *pdf.ResourceManager
@@ -233,7 +240,7 @@ func (r *c16Run) fail(key, format string, args ...any) {
 	if r.nviol > 6 {
 		return
 	}
-	r.c.Violationf(key+"/"+r.shape(), "%s %s pages=%d ranges=%d\nops (w<i>=writer i in creation order; aK=AppendPageDict, pK=AppendPage, rK=AppendPageRef to writer K; nK=NewRange on K; cK=Close K; qK=NextPageNumber on K): %s\n%s",
+	r.c.Violationf(r.prefix+key+"/"+r.shape(), "%s %s pages=%d ranges=%d\nops (w<i>=writer i in creation order; aK=AppendPageDict, pK=AppendPage, rK=AppendPageRef to writer K; nK=NewRange on K; cK=Close K; qK=NextPageNumber on K): %s\n%s",
 		r.cfg, r.label, len(r.pages), len(r.ranges)-1, r.opsText(), fmt.Sprintf(format, args...))
 }
 
@@ -409,18 +416,22 @@ func (r *c16Run) appendPage(i int, kind byte, at c16Attr) bool {
 		if at.staleParent {
 			d["Parent"] = pdf.NewReference(7777777, 0)
 		}
-		set := func(key pdf.Name, tab *[3]pdf.Object, ix int) {
+		set := func(key pdf.Name, tab *[3]pdf.Object, ix, bit int) {
 			if ix >= 0 {
 				d[key] = tab[ix]
 				p.want[key] = c16Canon(tab[ix])
+			} else if at.nulls&(1<<bit) != 0 {
+				d[key] = nil
 			}
 		}
-		set("MediaBox", &r.dictMedia, at.media)
-		set("CropBox", &r.dictCrop, at.crop)
-		set("Resources", &r.dictRes, at.res)
-		set("AA", &r.dictAA, at.aa)
+		set("MediaBox", &r.dictMedia, at.media, 0)
+		set("CropBox", &r.dictCrop, at.crop, 1)
+		set("Resources", &r.dictRes, at.res, 3)
+		set("AA", &r.dictAA, at.aa, 4)
 		if at.rot >= 0 {
 			d["Rotate"] = pdf.Integer(c16Rot[at.rot])
+		} else if at.nulls&4 != 0 {
+			d["Rotate"] = nil
 		}
 		p.ref = r.out.Alloc()
 		err = rg.w.AppendPageDict(p.ref, d)
@@ -632,7 +643,8 @@ func (r *c16Run) effCanon(rd *pdf.Reader, p *c16Page, key pdf.Name, v pdf.Object
 	return c16Canon(v), true
 }
 
-func (r *c16Run) compareAttrs(rd *pdf.Reader, p *c16Page, keys []pdf.Name, src string, get func(pdf.Name) (pdf.Object, bool)) {
+func (r *c16Run) compareAttrs(rd *pdf.Reader, p *c16Page, keys []pdf.Name, src string, get func(pdf.Name) (pdf.Object, bool)) bool {
+	ok := true
 	for _, key := range keys {
 		v, present := get(key)
 		got, has := r.effCanon(rd, p, key, v, present)
@@ -645,8 +657,10 @@ func (r *c16Run) compareAttrs(rd *pdf.Reader, p *c16Page, keys []pdf.Name, src s
 				return s
 			}
 			r.fail(src+"/"+string(key), "page #%d (id %d, kind %c, ref %v): effective /%s is %s, given %s", p.pos, p.id, p.kind, p.ref, key, show(got, has), show(want, wantHas))
+			ok = false
 		}
 	}
+	return ok
 }
 
 func (r *c16Run) marker(d pdf.Dict) int {
@@ -718,6 +732,9 @@ func (r *c16Run) finish() {
 		return
 	}
 	data := r.buf.Bytes()
+	if c.R.Replaying() {
+		os.WriteFile(filepath.Join(c.R.OutDir(), fmt.Sprintf("c16-%s-%d.pdf", c.Phase, c.Index)), data, 0o644)
+	}
 	rd, err := pdf.NewReader(bytes.NewReader(data), int64(len(data)), &pdf.ReaderOptions{ErrorHandling: pdf.ErrorHandlingStop})
 	if err != nil {
 		r.fail("reopen", "NewReader: %v", err)
@@ -735,7 +752,7 @@ func (r *c16Run) finish() {
 			r.fail("structure/root-type", "the root %v is not a /Pages node: %s", rootRef, kit.Trunc(c16Canon(obj), 300))
 		}
 	}
-	total := w.walk(rootRef, 0, map[pdf.Name]pdf.Object{}, 0)
+	w.walk(rootRef, 0, map[pdf.Name]pdf.Object{}, 0)
 	c.R.Count("pages_nodes_walked", int64(w.nodes))
 	c.R.Count("leaves_walked", int64(len(w.leaves)))
 	for k, n := range w.hoisted {
@@ -746,7 +763,6 @@ func (r *c16Run) finish() {
 	if w.broken {
 		return
 	}
-	_ = total
 
 	// order
 	if len(w.leaves) != len(want) {
@@ -765,12 +781,15 @@ func (r *c16Run) finish() {
 		}
 	}
 	inheriting := 0
+	// effOK[i]: the file itself gives page i the right effective attributes;
+	// the library's readers are only judged on such pages
+	effOK := make([]bool, len(want))
 	for i, lf := range w.leaves {
 		p := want[i]
 		if p.ref != 0 && lf.ref != p.ref {
 			r.fail("page-ref", "page #%d (id %d, kind %c) is object %v, the reference given was %v", i, p.id, p.kind, lf.ref, p.ref)
 		}
-		r.compareAttrs(rd, p, inh, "effective", func(k pdf.Name) (pdf.Object, bool) { v, ok := lf.eff[k]; return v, ok })
+		effOK[i] = r.compareAttrs(rd, p, inh, "effective", func(k pdf.Name) (pdf.Object, bool) { v, ok := lf.eff[k]; return v, ok })
 		for _, k := range inh {
 			if _, own := lf.dict[k]; !own {
 				if _, ok := lf.eff[k]; ok {
@@ -845,7 +864,9 @@ func (r *c16Run) finish() {
 		if _, ok := d["Parent"]; ok {
 			r.fail("reader/Iterator-parent", "Iterator page %d still has /Parent", i)
 		}
-		r.compareAttrs(rd, want[i], inh, "reader/Iterator", func(k pdf.Name) (pdf.Object, bool) { v, ok := d[k]; return v, ok })
+		if effOK[i] {
+			r.compareAttrs(rd, want[i], inh, "reader/Iterator", func(k pdf.Name) (pdf.Object, bool) { v, ok := d[k]; return v, ok })
+		}
 		i++
 	}
 	if it.Err != nil || i != len(want) {
@@ -887,7 +908,9 @@ func (r *c16Run) finish() {
 		if _, ok := d["Parent"]; ok {
 			r.fail("reader/GetPage-parent", "GetPage(%d) still has /Parent", j)
 		}
-		r.compareAttrs(rd, want[j], inh, "reader/GetPage", func(k pdf.Name) (pdf.Object, bool) { v, ok := d[k]; return v, ok })
+		if effOK[j] {
+			r.compareAttrs(rd, want[j], inh, "reader/GetPage", func(k pdf.Name) (pdf.Object, bool) { v, ok := d[k]; return v, ok })
+		}
 	}
 	for _, j := range []int{-1, n, n + 1} {
 		if ref, d, err := pagetree.GetPage(rd, j); err == nil {
@@ -937,6 +960,7 @@ type c16AttrGen struct {
 	prev   [5]int
 	extras int // per cent
 	stale  int // per cent
+	nulls  int // per cent of pages whose absent attributes become explicit nulls
 	desc   string
 }
 
@@ -985,6 +1009,9 @@ func (g *c16AttrGen) next(writer int) c16Attr {
 	}
 	at.extra = g.rng.Intn(100) < g.extras
 	at.staleParent = g.rng.Intn(100) < g.stale
+	if g.nulls > 0 && g.rng.Intn(100) < g.nulls {
+		at.nulls = 1 + g.rng.Intn(31)
+	}
 	return at
 }
 
@@ -994,7 +1021,7 @@ var c16Configs = []c16Cfg{
 }
 
 // c16Random runs one random program with n pages.
-func c16Random(c *kit.Case, n int) {
+func c16Random(c *kit.Case, n int, explicitNulls bool) {
 	rng := c.Rng
 	cfg := c16Configs[c.Index%4]
 	if rng.Chance(1, 4) {
@@ -1028,12 +1055,25 @@ func c16Random(c *kit.Case, n int) {
 	kinds := kit.Pick(rng, []string{"d", "d", "p", "r", "dpr", "ddddp"})
 	refusals := rng.Chance(1, 5)
 	gen := c16NewAttrGen(rng)
+	if explicitNulls {
+		kinds = "d"
+		gen.nulls = kit.Pick(rng, []int{10, 50, 100})
+		for k := range gen.absent {
+			if gen.absent[k] == 0 || gen.absent[k] == 100 {
+				gen.absent[k] = 50
+			}
+		}
+		gen.desc += fmt.Sprintf(" explicit-null%%=%d absent%%=%v", gen.nulls, gen.absent)
+	}
 	label := fmt.Sprintf("n=%d maxDepth=%d rangeBudget=%d bursts=%v kinds=%q %s", n, maxDepth, budget, bursts, kinds, gen.desc)
 
 	r, err := c16NewRun(c, cfg, label)
 	if err != nil {
 		c.Violationf("setup", "%s: %v", cfg, err)
 		return
+	}
+	if explicitNulls {
+		r.prefix = "explicit-null/"
 	}
 	defer r.guard()
 
@@ -1362,7 +1402,7 @@ func TestVerifC16(t *testing.T) {
 	r.Phase("boundary-sizes", len(sizes), func(c *kit.Case) {
 		n := sizes[c.Index]
 		c.R.Seen("boundary-sizes", strconv.Itoa(n))
-		c16Random(c, n)
+		c16Random(c, n, false)
 	})
 
 	r.Phase("random", r.N(4400, 60000), func(c *kit.Case) {
@@ -1378,6 +1418,13 @@ func TestVerifC16(t *testing.T) {
 		default:
 			n = rng.Range(20000, 70000)
 		}
-		c16Random(c, n)
+		c16Random(c, n, false)
+	})
+
+	// dictionaries handed to AppendPageDict which carry explicit null
+	// entries for inheritable attributes (null = absent); own key class
+	r.Phase("explicit-null-entries", r.N(400, 6000), func(c *kit.Case) {
+		c16Random(c, c.Rng.Range(2, 400), true)
+		c.Inc("trees_with_explicit_nulls")
 	})
 }
